@@ -1100,4 +1100,24 @@ async fn run(_tier: Tier) {
             return;
         }
     }
+    // An upstream response that may not be kept at all (a record with TTL 0,
+    // a truncated one the configuration does not cache, one of no cacheable
+    // kind) answers the request it was fetched for and nobody else - not
+    // even a request made in the same instant.
+    let mut users: std::collections::BTreeMap<u32, Vec<usize>> = std::collections::BTreeMap::new();
+    for q in qs.iter() {
+        if let Ok(v) = &q.result {
+            if let [s] = serial_of(v)[..] {
+                users.entry(s).or_default().push(q.k);
+            }
+        }
+    }
+    for u in &log {
+        if validity_bound_s(u, &cfg) == 0 {
+            if let Some(ks) = users.get(&u.serial).filter(|ks| ks.len() > 1) {
+                sim::violation(P, "aged-copy", "uncacheable-response-served-more-than-once".to_string(), format!("upstream response #{:x} ({:?} at {:.3}s) may not be kept at all, yet queries {:?} were all answered with it", u.serial, u.class, u.t_ret_ns as f64 / 1e9, ks));
+                return;
+            }
+        }
+    }
 }
